@@ -233,7 +233,7 @@ def run(tier: str, seed: int, t0: float) -> int:
                        ("CanAppend:ok-true", 30), ("CanAppend:ok-false", 30), ("Check:ok-true", 100), ("Check:ok-false", 100),
                        ("ValidContent:ok-true", 50), ("ValidContent:ok-false", 200), ("CreateChecked:ok-true", 50), ("CreateChecked:ok-false", 200)):
         if stats.counts.get(key, 0) < least:
-            raise core.MachineryError(f"vacuity gate: {key}={stats.counts.get(key, 0)} < {least}")
+            core.vacuity(out, f"vacuity gate: {key}={stats.counts.get(key, 0)} < {least}")
     return core.finish("C07", tier, seed, stats, out, t0,
                        rule="validity queries: (node, child index range, replacement fragment, sub-range), (node, range, type, mark set), (node, other node), "
                             "(type, fragment), whole documents incl. mutated invalid ones; nodes from all TLC-generated documents + random bundled documents; "
